@@ -6,10 +6,12 @@ package auth
 // (NewFileService on a JSON file, or NewDatabaseService on a SQLite file), seeds it with users whose
 // stored credential is in a given format, and runs the real ValidatePassword on a sequence of
 // (user, password) steps, reporting the verdict and the class of every stored credential after each
-// step ("same" as seeded / a new "bcrypt" hash / "other").  At the end of a scenario the store is
+// step ("same" as last written by the harness (seed or change) / a new "bcrypt" hash / "other"), read from
+// the store itself.  A step may also be a credential change (ReadUser, replace Password, WriteUser - what the
+// admin handlers do).  The short-term auth cache is live and never purged within a scenario.  At the end of a scenario the store is
 // opened a second time from disk (before the first service is closed) to see whether the credentials persisted.
 //
-// VERIF_IN : JSON [ {store, plaintext, users:[{name, fmt, pw(hex), perms}], steps:[{user(hex), pass(hex)}]} ]
+// VERIF_IN : JSON [ {store, plaintext, users:[{name, fmt, pw(hex), perms}], steps:[{user(hex), pass(hex)} | {op:"change", user(hex), fmt, pw(hex)}]} ]
 // VERIF_OUT: JSON [ {error, steps:[{ok, stored:{name: class}}], reopened:{name: class}} ]
 
 import (
@@ -35,8 +37,11 @@ type c25User struct {
 }
 
 type c25Step struct {
+	Op   string `json:"op"` // "" = login; "change" = replace the stored credential of user (fmt, pw)
 	User string `json:"user"`
 	Pass string `json:"pass"`
+	Fmt  string `json:"fmt"`
+	Pw   string `json:"pw"`
 }
 
 type c25Scenario struct {
@@ -63,32 +68,61 @@ func c25Unhex(s string) string {
 	return string(b)
 }
 
-func c25Classes(svc userIOService, seeded map[string]string) map[string]string {
+// c25Stored reads what the store itself holds for name, without touching the short-term auth cache
+// (the SQL service is read through its table handle, the file service has no cache).
+func c25Stored(svc userIOService, name string) (string, bool) {
+	if pg, ok := svc.(*databaseService); ok {
+		rows, err := pg.userHandle.Begin().Read(pg.userHandle.Equals("name", name))
+		if err != nil || len(rows) == 0 {
+			return "", false
+		}
+
+		return rows[len(rows)-1].(*defs.User).Password, true
+	}
+
+	u, err := svc.ReadUser(0, name, true)
+
+	return u.Password, err == nil
+}
+
+// class of every stored credential relative to what the harness last wrote for that user
+func c25Classes(svc userIOService, current map[string]string) map[string]string {
 	res := map[string]string{}
 
-	for name, initial := range seeded {
-		caches.Purge(caches.AuthCache)
-
-		u, err := svc.ReadUser(0, name, true)
+	for name, expect := range current {
+		pw, found := c25Stored(svc, name)
 
 		switch {
-		case err != nil:
+		case !found:
 			res[name] = "missing"
-		case u.Password == initial:
+		case pw == expect:
 			res[name] = "same"
-		case IsBcryptHash(u.Password):
+		case IsBcryptHash(pw):
 			res[name] = "bcrypt"
 		default:
-			res[name] = "other:" + hex.EncodeToString([]byte(u.Password))
+			res[name] = "other:" + hex.EncodeToString([]byte(pw))
 		}
 	}
 
 	return res
 }
 
-func c25Open(kind, path string) (userIOService, error) {
-	caches.Purge(caches.AuthCache)
+func c25Encode(fmtName, pw string) string {
+	switch fmtName {
+	case "bcrypt": // minimum cost: the comparison cost is read from the hash itself
+		h, _ := bcrypt.GenerateFromPassword([]byte(pw), bcrypt.MinCost)
 
+		return string(h)
+	case "sha":
+		return egostrings.HashString(pw)
+	case "plain":
+		return "{" + pw + "}"
+	}
+
+	return pw // raw stored text
+}
+
+func c25Open(kind, path string) (userIOService, error) {
 	if kind == "db" {
 		return NewDatabaseService("sqlite3://"+path, "", "")
 	}
@@ -125,6 +159,10 @@ func TestVerifC25(t *testing.T) {
 			settings.SetDefault(defs.PlaintextPasswordSetting, "false")
 		}
 
+		// a scenario is a fresh server start: empty short-term caches, then never purged again
+		caches.Active(true)
+		caches.PurgeLocal(caches.AuthCache)
+
 		svc, err := c25Open(sc.Store, path)
 		if err != nil {
 			o.Error = "open: " + err.Error()
@@ -139,21 +177,7 @@ func TestVerifC25(t *testing.T) {
 		seeded := map[string]string{}
 
 		for _, u := range sc.Users {
-			pw := c25Unhex(u.Pw)
-			stored := ""
-
-			switch u.Fmt {
-			case "bcrypt": // minimum cost: the comparison cost is read from the hash itself
-				h, _ := bcrypt.GenerateFromPassword([]byte(pw), bcrypt.MinCost)
-				stored = string(h)
-			case "sha":
-				stored = egostrings.HashString(pw)
-			case "plain":
-				stored = "{" + pw + "}"
-			default: // raw stored text
-				stored = pw
-			}
-
+			stored := c25Encode(u.Fmt, c25Unhex(u.Pw))
 			seeded[u.Name] = stored
 
 			if err := svc.WriteUser(0, defs.User{Name: u.Name, Password: stored, Permissions: u.Perms}); err != nil {
@@ -163,8 +187,27 @@ func TestVerifC25(t *testing.T) {
 
 		_ = svc.Flush()
 
+		// The auth cache is live during the steps, exactly as in a running server: nothing is purged.
 		for _, st := range sc.Steps {
-			caches.Purge(caches.AuthCache)
+			if st.Op == "change" {
+				// what the admin handlers do: read the record, replace the credential, write it back
+				name := c25Unhex(st.User)
+				cur, err := AuthService.ReadUser(1, name, false)
+
+				if err == nil {
+					cur.Password = c25Encode(st.Fmt, c25Unhex(st.Pw))
+					err = AuthService.WriteUser(1, cur)
+
+					if err == nil {
+						err = AuthService.Flush()
+						seeded[name] = cur.Password
+					}
+				}
+
+				o.Steps = append(o.Steps, c25StepOut{Ok: err == nil, Stored: c25Classes(svc, seeded)})
+
+				continue
+			}
 
 			ok := ValidatePassword(1, c25Unhex(st.User), c25Unhex(st.Pass))
 			o.Steps = append(o.Steps, c25StepOut{Ok: ok, Stored: c25Classes(svc, seeded)})
